@@ -4,9 +4,28 @@ import os
 
 from engine import core
 
-PS_CONSTS = """  MaxExecDepth = 100
-  MaxOpStack = 500
-"""
+DEFAULT_LIMITS = {"execdepth": 100, "opstack": 500, "dictstack": 20, "maxarray": 65536, "maxstring": 65536, "maxdict": 65536}
+
+
+def ps_consts(ctx):
+    """The resource limits of the interpreter under test, as CONSTANTS of the PS specifications.
+
+    The properties demand that limits exist (C11), not their values: they are measured (vh probe-limits).
+    A limit that cannot be found is C11's finding; every other check then uses the default value."""
+    lim = getattr(ctx, "_limits", None)
+    if lim is None:
+        lim = ctx.vh_json("probe-limits", timeout=600)
+        ctx._limits = lim
+        ctx.extra["measured_limits"] = dict(lim)
+    v = {k: (lim.get(k) or DEFAULT_LIMITS[k]) for k in DEFAULT_LIMITS}
+    # the containers of the operand pools (65536 elements) must stay legal for the pools to mean what they say
+    return ("  MaxExecDepth = %(execdepth)d\n  MaxOpStack = %(opstack)d\n  MaxDictStack = %(dictstack)d\n"
+            "  ImplLimitArr = %(maxarray)d\n  ImplLimitStr = %(maxstring)d\n  ImplLimitDict = %(maxdict)d\n" % v)
+
+
+def missing_limits(ctx):
+    ps_consts(ctx)
+    return [k for k in DEFAULT_LIMITS if not ctx._limits.get(k)]
 
 
 def run_mbt(ctx, module, consts, label, base_heap="Heap0", invariants=("Emit", "Inv"),
@@ -16,7 +35,7 @@ def run_mbt(ctx, module, consts, label, base_heap="Heap0", invariants=("Emit", "
     Returns the harness summary."""
     outfile = outfile or (label + ".ndjson")
     basefile = label + ".base.json"
-    cfg = "CONSTANTS\n" + PS_CONSTS
+    cfg = "CONSTANTS\n" + ps_consts(ctx)
     cfg += '  OutFile = "%s"\n  BaseFile = "%s"\n' % (outfile, basefile)
     cfg += "  BaseHeap <- %s\n" % base_heap
     for k, v in consts.items():
